@@ -27,6 +27,93 @@ theorem lit_eq_some {p s r : List Char} (h : lit p s = some r) : s = p ++ r := b
       · rename_i hac; subst hac; simp [ih h]
       · cases h
 
+/-- strings.Split(s, sep) for a one-character separator (never returns the empty list) -/
+def splitOn (sep : Char) : List Char → List (List Char)
+  | [] => [[]]
+  | c :: cs =>
+    if c = sep then [] :: splitOn sep cs
+    else match splitOn sep cs with
+      | [] => [[c]]
+      | h :: t => (c :: h) :: t
+
+theorem splitOn_ne_nil (sep : Char) (s : List Char) : splitOn sep s ≠ [] := by
+  induction s with
+  | nil => simp [splitOn]
+  | cons c cs ih =>
+    simp only [splitOn]
+    split
+    · simp
+    · split <;> simp
+
+/-- a string without the separator is a single part -/
+theorem splitOn_of_not_mem (sep : Char) (s : List Char) (h : sep ∉ s) : splitOn sep s = [s] := by
+  induction s with
+  | nil => rfl
+  | cons c cs ih =>
+    have hc : c ≠ sep := fun e => h (by simp [e])
+    have hcs : sep ∉ cs := fun m => h (by simp [m])
+    simp [splitOn, hc, ih hcs]
+
+/-- the first part ends at the first separator -/
+theorem splitOn_append (sep : Char) (a b : List Char) (h : sep ∉ a) :
+    splitOn sep (a ++ sep :: b) = a :: splitOn sep b := by
+  induction a with
+  | nil => simp [splitOn]
+  | cons c cs ih =>
+    have hc : c ≠ sep := fun e => h (by simp [e])
+    have hcs : sep ∉ cs := fun m => h (by simp [m])
+    simp [splitOn, hc, ih hcs]
+
+/-- joining the parts with the separator gives the string back -/
+theorem splitOn_join (sep : Char) (s : List Char) :
+    ∀ x xs, splitOn sep s = x :: xs → x ++ (xs.flatMap fun p => sep :: p) = s := by
+  induction s with
+  | nil => intro x xs h; simp [splitOn] at h; obtain ⟨rfl, rfl⟩ := h; rfl
+  | cons c cs ih =>
+    intro x xs h
+    simp only [splitOn] at h
+    split at h
+    · rename_i hc; subst hc
+      cases hs : splitOn c cs with
+      | nil => exact absurd hs (splitOn_ne_nil _ _)
+      | cons y ys =>
+        rw [hs] at h
+        simp only [List.cons.injEq] at h
+        obtain ⟨rfl, rfl⟩ := h
+        simp [ih y ys hs]
+    · cases hs : splitOn sep cs with
+      | nil => exact absurd hs (splitOn_ne_nil _ _)
+      | cons y ys =>
+        rw [hs] at h
+        simp only [List.cons.injEq] at h
+        obtain ⟨rfl, rfl⟩ := h
+        simp [ih y ys hs]
+
+/-- no part contains the separator -/
+theorem splitOn_parts_no_sep (sep : Char) (s : List Char) : ∀ p ∈ splitOn sep s, sep ∉ p := by
+  induction s with
+  | nil => simp [splitOn]
+  | cons c cs ih =>
+    simp only [splitOn]
+    split
+    · intro p hp
+      rcases List.mem_cons.mp hp with h | h
+      · subst h; simp
+      · exact ih p h
+    · rename_i hc
+      cases hs : splitOn sep cs with
+      | nil => exact absurd hs (splitOn_ne_nil _ _)
+      | cons x xs =>
+        rw [hs] at ih
+        intro p hp
+        rcases List.mem_cons.mp hp with h | h
+        · subst h
+          intro hm
+          rcases List.mem_cons.mp hm with h' | h'
+          · exact hc h'.symm
+          · exact ih x (by simp) h'
+        · exact ih p (by simp [h])
+
 /-- characters accepted by Go's hex.DecodeString -/
 def isHex (c : Char) : Bool :=
   (decide (48 ≤ c.toNat) && decide (c.toNat ≤ 57)) || (decide (97 ≤ c.toNat) && decide (c.toNat ≤ 102)) ||
